@@ -75,6 +75,8 @@ class Likelihood:
             if self.shared is not None:
                 with self.shared.get_lock():
                     self.shared.value += len(x)
+            if getattr(self, "ret_type", "float") == "vec-list":
+                return [float(v) for v in ll]        # a vectorised likelihood that returns a plain list
             if self.ro_buffer:
                 if self._buf is None or len(self._buf) < len(ll):
                     self._buf = np.empty(max(len(ll), 4096))
@@ -104,6 +106,10 @@ class Likelihood:
         if self.shared is not None:
             with self.shared.get_lock():
                 self.shared.value += 1
+        rt = getattr(self, "ret_type", "float")
+        if rt != "float":
+            # the same real number in the other types user code commonly returns
+            ll = {"0d": np.array(ll), "np64": np.float64(ll), "ld": np.longdouble(ll), "vec-list": ll}[rt]
         if self.mode == "blobs":
             return ll, float(i)
         if self.mode == "blobs2":
